@@ -1,5 +1,6 @@
 import SkimModel.Model.SelSet
 import SkimModel.Generated.SelOps
+import SkimModel.Lemmas.FnTactics
 /-!
 The four selection actions of src/selection.rs, as TRANSLATED from the source on every run into (guard, scope, operation) triples
 (`Generated/SelOps.lean`), ARE the actions of the C10 model: interpreting the triple of `act_toggle` gives `SelSet.toggle` for every
@@ -7,6 +8,7 @@ state, run number and cursor, and likewise for `act_toggle_all`, `act_select_all
 the single-selection guard, turns a toggle into an insert, acts on the cursor instead of every listed item, or keys by something
 other than `(current_run_num(), item_idx)` either is not understood by the translator (NOTE, no alarm) or breaks a theorem here.
 -/
+set_option linter.unusedSimpArgs false
 namespace SkimModel.SelSet
 open SkimModel.Generated
 
@@ -47,6 +49,86 @@ theorem act_deselect_all_is_model (s : Sel) (run cursor : Nat) :
     interp SelOps.act_deselect_all s run cursor = some (deselectAll s) := by
   unfold interp deselectAll SelOps.act_deselect_all
   simp
+
+/-! ### `append_sorted_items` (watermark bookkeeping), `pre_select`, `act_select_raw_item`, `should_select` -/
+
+/-- the translated `should_select` on the model's selector (no `regex`: the harness and `sk` never set one) -/
+def interpShould (sel : Selector) (idx : Nat) (it : Item) : Bool :=
+  SelOps.shouldSelect sel.firstN idx (!sel.preset.isEmpty) (sel.preset.contains it) false false
+
+theorem should_select_is_model (sel : Selector) (idx : Nat) (it : Item) :
+    interpShould sel idx it = sel.shouldSelect idx it := by
+  unfold interpShould SelOps.shouldSelect Selector.shouldSelect
+  cases hp : sel.preset with
+  | nil => by_cases h : sel.firstN > idx <;> simp [h]
+  | cons a t => by_cases h : sel.firstN > idx <;> cases hc : (a :: t).contains it <;> simp [h, hc]
+
+/-- the translated `act_select_raw_item` -/
+def interpSelectRaw (s : Sel) (run idx : Nat) (it : Item) : Sel :=
+  if SelOps.selectRawSkips s.multi then s else { s with selected := insert (run, idx) it s.selected }
+
+theorem select_raw_is_model (s : Sel) (run idx : Nat) (it : Item) :
+    interpSelectRaw s run idx it = selectRaw s run idx it := by
+  unfold interpSelectRaw selectRaw SelOps.selectRawSkips
+  cases s.multi <;> simp
+
+/-- in single-selection mode the loop of `pre_select` changes nothing, whatever the selector says -/
+theorem foldl_selectRaw_single (p : MItem → Bool) (run : Nat) (batch : List MItem) (s : Sel) (h : s.multi = false) :
+    batch.foldl (fun acc m => if p m then selectRaw acc run m.idx m.item else acc) s = s := by
+  induction batch with
+  | nil => rfl
+  | cons m t ih =>
+    have : selectRaw s run m.idx m.item = s := by simp [selectRaw, h]
+    simp only [List.foldl, this, ite_self, ih]
+
+/-- the translated `pre_select`: `self.selector.as_ref().map(|s| s.should_select(..)).unwrap_or(false)` is `false` without a selector -/
+def interpPreSelect (s : Sel) (run : Nat) (batch : List MItem) : Sel :=
+  if SelOps.preSelectSkips s.selector.isNone s.multi then s
+  else batch.foldl (fun acc m =>
+    if (s.selector.map (fun sel => interpShould sel m.idx m.item)).getD false then interpSelectRaw acc run m.idx m.item else acc) s
+
+theorem pre_select_is_model (s : Sel) (run : Nat) (batch : List MItem) :
+    interpPreSelect s run batch = preSelect s run batch := by
+  unfold interpPreSelect preSelect SelOps.preSelectSkips
+  cases hsel : s.selector with
+  | none => simp
+  | some sel =>
+    cases hm : s.multi with
+    | false =>
+      have hf := foldl_selectRaw_single (fun m => sel.shouldSelect m.idx m.item) run batch s hm
+      have : ∀ a b c d, interpSelectRaw a b c d = selectRaw a b c d := select_raw_is_model
+      simp [this, should_select_is_model, hf]
+    | true =>
+      simp only [Option.isNone_some, Option.map_some, Option.getD_some, should_select_is_model]
+      have : ∀ a b c d, interpSelectRaw a b c d = selectRaw a b c d := select_raw_is_model
+      simp [this]
+
+/-- the translated `append_sorted_items` up to (not including) the cursor fix-up (that part is `CursorFns.appendFixup`, C09) -/
+def interpAppend (s : Sel) (run : Nat) (batch : List MItem) : Sel :=
+  let hd := SelOps.appendHead run s.latestRun s.watermark s.listed.length batch.isEmpty
+  let s1 := { s with latestRun := hd.1, watermark := hd.2 }
+  let s2 := if SelOps.appendPreselects s1.watermark s1.listed.length then interpPreSelect s1 run batch else s1
+  let s3 := { s2 with listed := appendItems s2 batch }
+  { s3 with watermark := SelOps.appendTail s3.watermark s3.listed.length }
+
+theorem append_head_is_model (run latest wm n : Nat) (batchEmpty : Bool) :
+    SelOps.appendHead run latest wm n batchEmpty = (if !batchEmpty && decide (run > latest) then (run, 0) else (latest, wm)) := by
+  unfold SelOps.appendHead
+  cases batchEmpty <;> simp <;> fn_eq
+
+theorem append_preselects_is_model (wm n : Nat) : SelOps.appendPreselects wm n = decide (n ≥ wm) := by
+  unfold SelOps.appendPreselects
+  simp only [decide_eq_decide] <;> omega
+
+theorem append_tail_is_model (wm n : Nat) : SelOps.appendTail wm n = max wm n := by
+  unfold SelOps.appendTail
+  fn_eq
+
+theorem append_is_model (s : Sel) (run : Nat) (batch : List MItem) :
+    interpAppend s run batch = append s run batch := by
+  unfold interpAppend append
+  simp only [pre_select_is_model, append_head_is_model, append_preselects_is_model, append_tail_is_model]
+  cases hb : batch.isEmpty <;> by_cases hr : run > s.latestRun <;> simp [hb, hr]
 
 /-! ### src/global.rs: the run-number table -/
 
